@@ -198,7 +198,10 @@ class Ob(object):
         if st == 'refuted':
             return self._add(name, kind, 'failed', {'model': info['model'], 'lhs': info['lhs'], 'rhs': info['rhs']})
         # incomplete matcher: look for a concrete disagreement by exact evaluation
-        ce = find_concrete_disagreement(self.ex.pc, lhs, rhs)
+        try:
+            ce = find_concrete_disagreement(self.ex.pc, lhs, rhs)
+        except ZeroDivisionError:
+            ce = None          # a denominator evaluated to zero at the sampled point: no verdict from this sample
         if ce is not None:
             return self._add(name, kind, 'failed', {'concrete': ce, 'matcher': _short(info)})
         return self._add(name, kind, 'undecided', {'reason': 'terms not matched and no concrete disagreement found', 'matcher': _short(info)})
